@@ -161,7 +161,7 @@ def evalbin(op, t, l, r):
 def ceval(e):
     """eval.c:eval on the typed tree"""
     k = e[0]
-    if k in ('c', 'p', 'cond', 'idx', 'calle'):
+    if k in ('c', 'p', 'cond', 'idx', 'calle', 'comma'):      # eval.c has no case for EXPRCOMMA
         return e
     if k == 'neg':
         l = ceval(e[2])
@@ -178,7 +178,7 @@ def ceval(e):
     op, t = e[0], e[1]
     l = ceval(e[2])
     r = ceval(e[3])
-    isbin = lambda x: x[0] not in ('c', 'p', 'cond', 'neg', 'cast', 'idx', 'calle')
+    isbin = lambda x: x[0] not in ('c', 'p', 'cond', 'neg', 'cast', 'idx', 'calle', 'comma')
     if op == 'add':
         if isbin(r):
             l, r = r, l
@@ -288,6 +288,7 @@ def ctext(e):
     if k == 'Q': return '(%s ? %s : %s)' % (ctext(e[1]), ctext(e[2]), ctext(e[3]))
     if k == 'I': return 'p%d[%s]' % (e[1], ctext(e[2]))
     if k == 'F': return '%s(%s)' % (e[1], ', '.join(ctext(a) for a in e[4]))
+    if k == 'M': return '(%s , %s)' % (ctext(e[1]), ctext(e[2]))
     raise ValueError(k)
 
 
@@ -334,6 +335,11 @@ def parse(e, ptys):
     if k == 'I':
         # ('I', k, idxsrc, t, n): `a[i]` = *(a + (unsigned long)i * sizeof *a); the model rebuilds the address
         return ('idx', e[3], e[1], e[4], parse(e[2], ptys))
+    if k == 'M':
+        # EXPRCOMMA: the operands in order, type of the last
+        a = parse(e[1], ptys)
+        b = parse(e[2], ptys)
+        return ('comma', ty(b), a, b)
     if k == 'F':
         # ('F', name, ret, ptys, argsrcs): EXPRCALL, arguments converted to the parameter types (exprassign)
         return ('calle', e[2], e[1], [conv(parse(a, ptys), pt) for a, pt in zip(e[4], e[3])])
@@ -409,7 +415,7 @@ def gen(seed, charsigned, n, nargs=4, prefix='f'):
 #   `return e;` (ret conv(e,RET))               exprassign to the return type
 #   `for (init; c; step) body`  (for INIT COND STEP BODY), a missing clause is (skip) / (none)
 STMT_KINDS = ['decl', 'decl-init', 'set', 'opset', 'inc', 'dec', 'expr', 'ret', 'block', 'if', 'ifelse', 'while',
-              'do', 'for', 'break', 'continue', 'skip', 'switch', 'case', 'default', 'call', 'adecl', 'aload', 'astore', 'idx-expr', 'call-expr', 'pload', 'callp', 'ainit', 'sizeof']
+              'do', 'for', 'break', 'continue', 'skip', 'switch', 'case', 'default', 'call', 'adecl', 'aload', 'astore', 'idx-expr', 'call-expr', 'pload', 'callp', 'ainit', 'sizeof', 'comma']
 OPSET = ['mul', 'div', 'mod', 'add', 'sub', 'shl', 'shr', 'and', 'or', 'xor']
 # which jump statements may be generated: 0 none, 1 in a loop, 2 in a switch outside any loop (the `continue` of a
 # switch inside a loop belongs to the loop), 3 in a switch inside a loop
@@ -516,6 +522,29 @@ class Gen2:
             return ('K', v, '(%s)' % txt, True, 'ul')
         if r.random() < 0.3:
             out.append(sz)
+
+        def cm():
+            # `(a , b)`: both operands are evaluated (an operand without value is undefined), the value is b's
+            # (gcc 12 with -fsanitize=undefined dies in gimplify_expr on `(_Bool)(1 , 3)` and the like: the left operand
+            # of every comma reads an object or calls a function)
+            d = r.randrange(0, 2)
+
+            def nonconst(e):
+                return e[0] in ('P', 'I', 'F') or any(nonconst(x) for x in e[1:] if isinstance(x, tuple))
+            saved = self.g.impure
+            self.g.impure = [f for f in saved if f is not cm]     # no comma directly inside a comma
+            try:
+                b = self.g.expr(d)
+                for _ in range(4):
+                    a = self.g.expr(d)
+                    if nonconst(a):
+                        self.count('comma')
+                        return ('M', a, b)
+                return b
+            finally:
+                self.g.impure = saved
+        if r.random() < 0.07:
+            out.append(cm)
         return out
 
     def expr(self, scope, depth=None, risky=0.04, impure=False):
